@@ -42,7 +42,7 @@ def sim_behaviours(wd, module, cfg, n, depth, seed, tag="sim"):
     return out
 
 
-def cover_behaviours(wd, cfg, timeout=3000):
+def cover_behaviours(wd, cfg, timeout=7200):
     """MC_WriterCover: one call sequence per (class of source state, call, result) transition of the writer model"""
     r = vlib.tlc_run("MC_WriterCover.tla", cfg, wd, workers=1, timeout=timeout, tag="cover")
     if r["error"] or not r["ok"]:
